@@ -159,6 +159,23 @@ def check(model: Model, run: Run) -> None:
                     for x in nodes:
                         if x.kind == "prim":
                             run.ob("V3-explicit-default-has-real-reader", True)
+                for ln_, txt_ in getattr(n, "read_then_skip", []):
+                    run.ob("V10-read-branch-does-not-skip-again", False, {"reader": short(res.func), "line": ln_})
+                    run.fail(Finding("V10-read-branch-does-not-skip-again", res.func, f"read-then-skip|{txt_}", f"{short(res.func)}: the branch ending in `{txt_}` reads its component and then falls through to the "
+                                     "loop's skip_value with the header it has already consumed: the octets that follow are skipped as if they were that element",
+                                     f"{model.relpath(model.functions[res.func].module) if res.func in model.functions else ''}:{ln_}"))
+                if n.loop:
+                    run.ob("V10-read-branch-does-not-skip-again", True, {"reader": short(res.func)})
+                # an optional / trailing component is recognised by class AND number: a test of the number alone also takes an
+                # unrecognised element of another class (BIT STRING for [3], [APPLICATION 3] ...) for the known component
+                for sp, nodes in n.alts:
+                    if sp.how == "header" and sp.number is not None and any(x.kind in ("prim", "cons", "encaps") for x in nodes):
+                        ok9 = sp.cls_name is not None
+                        run.ob("V9-known-element-named-by-class-and-number", ok9, {"reader": short(res.func), "alternative": repr(sp)})
+                        if not ok9:
+                            run.fail(Finding("V9-known-element-named-by-class-and-number", res.func, repr(sp), f"{short(res.func)} recognises the component read under {sp!r} by its tag number "
+                                             "alone: an unrecognised element with that number in another tag class is consumed as this component instead of being skipped",
+                                             f"{model.relpath(model.functions[res.func].module) if res.func in model.functions else ''}:{n.line}"))
     run.floor("tag-dispatch points", n_seq, 9)
     # ---- no decoder rejects an element because of the FORM of its header ---------------------------------------------------
     header_form_rejections(model, run)
